@@ -265,3 +265,99 @@ Proof.
       change (x :: s ++ [0]) with ((x :: s) ++ zeros 1). symmetry. apply hmac_pad. cbn [length] in *. lia. }
     rewrite E. reflexivity.
 Qed.
+
+(* ---- PRF-key separation MODULO HMAC key normalisation (second audit, item 8) ----
+   With the abstract oracle above, the first disjunct of prf_key_separation_reduction compares the
+   Extract keys as byte strings.  Once the oracle is RFC 2104 HMAC, two different byte strings can be
+   the same HMAC key (zero padding to the block size, hashing of long keys): for such twins
+   HMAC agrees by an IDENTITY and the disjunct is free.  The statement below therefore is about
+   RFC 2104 HMAC over an arbitrary hash and compares keys after normalisation
+   (Hmac.hmac_key: hash if longer than the block, then zero-pad to the block size); the twins are
+   excluded by the premise (they are the refuted class, the two prf_key_separation_refuted theorems). *)
+Lemma app_eq_len1 {A} (a b c d : list A) :
+  a ++ b = c ++ d -> length a = length c -> a = c /\ b = d.
+Proof.
+  revert c. induction a as [|x a IH]; intros c E Hl; destruct c as [|y c]; try discriminate Hl.
+  - auto.
+  - cbn in E. inversion E; subst. cbn in Hl. destruct (IH c H1 ltac:(lia)) as [-> ->]. auto.
+Qed.
+
+Section NormSeparation.
+  Variable Hash : hash_alg -> bytes -> bytes.
+  Hypothesis Hash_len : forall a x, length (Hash a x) = digest_size a.
+  Variable edpub : bytes -> bytes.
+
+  (* an HMAC collision on inputs whose normalised keys or messages differ is a collision of the
+     HASH on two different inputs, exhibited: the outer inputs, or (same normalised key) the inner ones *)
+  Lemma hmac_collision_is_hash_collision a k m k' m' :
+    let H := Hash a in let B := block_size a in
+    (hmac_key H B k <> hmac_key H B k' \/ m <> m') ->
+    hmac H B k m = hmac H B k' m' ->
+    let k0 := hmac_key H B k in let k0' := hmac_key H B k' in
+    let inner := xorb k0 (ipad B) ++ m in let inner' := xorb k0' (ipad B) ++ m' in
+    let outer := xorb k0 (opad B) ++ H inner in let outer' := xorb k0' (opad B) ++ H inner' in
+    (outer <> outer' /\ H outer = H outer') \/
+    (k0 = k0' /\ inner <> inner' /\ H inner = H inner').
+  Proof.
+    clear edpub. intros H B Hd Hc k0 k0' inner inner' outer outer'.
+    destruct (list_eq_dec N.eq_dec outer outer') as [E|NE]; [right|left; split; [exact NE|exact Hc]].
+    assert (Hl : forall x, length (hmac_key H B x) = B).
+    { intros x. apply hmac_key_length. subst H B. rewrite Hash_len. apply digest_le_block'. }
+    assert (Hp : forall c x, length x = B -> length (xorb x (repeat c B)) = B).
+    { intros c x Hx. rewrite xorb_length, Hx, repeat_length. lia. }
+    subst outer outer'.
+    apply app_eq_len1 in E; [|unfold opad; rewrite !Hp by (apply Hl); reflexivity].
+    destruct E as [Ek Ei].
+    assert (E0 : k0 = k0').
+    { rewrite <- (xorb_cancel k0 (opad B)), <- (xorb_cancel k0' (opad B));
+        try (unfold opad; rewrite repeat_length; apply Hl).
+      rewrite Ek. reflexivity. }
+    split; [exact E0|]. split; [|exact Ei].
+    destruct Hd as [Hd|Hd]; [contradiction|].
+    subst inner inner'. rewrite E0. intros E. apply app_inv_head in E. contradiction.
+  Qed.
+
+  Theorem prf_key_separation_reduction_norm k k' id id' salt dk dk' :
+    k_hash k = k_hash k' -> k_type k = k_type k' ->
+    let h := k_hash k in
+    let H := Hash (alg_of h) in let B := block_size (alg_of h) in
+    (hmac_key H B (eff_salt h (k_salt k)), k_ikm k)
+      <> (hmac_key H B (eff_salt h (k_salt k')), k_ikm k') ->
+    (0 < consumption (k_type k))%nat ->
+    derive_key (std_hmac Hash) edpub k id salt = Some dk ->
+    derive_key (std_hmac Hash) edpub k' id' salt = Some dk' ->
+    r_material dk = r_material dk' ->
+    let prk := hmac H B (eff_salt h (k_salt k)) (k_ikm k) in
+    let prk' := hmac H B (eff_salt h (k_salt k')) (k_ikm k') in
+    let n := Nat.min (consumption (k_type k)) (hash_len h) in
+    (0 < n <= hash_len h)%nat /\
+    (((hmac_key H B (eff_salt h (k_salt k)) <> hmac_key H B (eff_salt h (k_salt k')) \/ k_ikm k <> k_ikm k') /\
+      length prk = hash_len h /\ prk = prk')
+     \/
+     (hmac_key H B prk <> hmac_key H B prk' /\
+      length (firstn n (hmac H B prk (salt ++ [1]))) = n /\
+      firstn n (hmac H B prk (salt ++ [1])) = firstn n (hmac H B prk' (salt ++ [1])))).
+  Proof.
+    intros Hh Ht h H B Hne Hpos Hd Hd' Hm prk prk' n.
+    assert (Hraw : (eff_salt (k_hash k) (k_salt k), k_ikm k) <> (eff_salt (k_hash k') (k_salt k'), k_ikm k')).
+    { intros E. apply Hne. inversion E as [[E1 E2]]. subst h. rewrite <- Hh in E1. rewrite E1, E2. reflexivity. }
+    destruct (prf_key_separation_reduction (std_hmac Hash) edpub (std_hmac_len Hash Hash_len)
+                k k' id id' salt dk dk' Hh Ht Hraw Hpos Hd Hd' Hm) as [Hn [[Hl E]|[NE [Hl E]]]].
+    - split; [exact Hn|]. left. split; [|split; [exact Hl|exact E]].
+      destruct (list_eq_dec N.eq_dec (hmac_key H B (eff_salt h (k_salt k))) (hmac_key H B (eff_salt h (k_salt k'))))
+        as [Ek|NEk]; [|left; exact NEk].
+      right. intros Ei. apply Hne. rewrite Ek, Ei. reflexivity.
+    - split; [exact Hn|]. right. split; [|split; [exact Hl|exact E]].
+      (* PRKs are HashLen <= B bytes: their normalisation only appends the same zeros *)
+      change (Derive.hkdf_extract (std_hmac Hash) (k_hash k) (k_salt k) (k_ikm k)) with prk in NE.
+      change (Derive.hkdf_extract (std_hmac Hash) (k_hash k) (k_salt k') (k_ikm k')) with prk' in NE.
+      assert (Hlen : forall x y, length (hmac H B x y) = digest_size (alg_of h)).
+      { intros x y. unfold hmac. subst H. apply Hash_len. }
+      pose proof (digest_le_block' (alg_of h)) as Hle. fold B in Hle.
+      assert (Hp1 : length prk = digest_size (alg_of h)) by apply Hlen.
+      assert (Hp2 : length prk' = digest_size (alg_of h)) by apply Hlen.
+      intros Ek. apply NE. unfold hmac_key in Ek. rewrite Hp1, Hp2 in Ek.
+      destruct (Nat.ltb_spec B (digest_size (alg_of h))); [lia|].
+      rewrite Hp1, Hp2 in Ek. apply app_inv_tail in Ek. exact Ek.
+  Qed.
+End NormSeparation.
